@@ -427,6 +427,22 @@ def pool_ops_part(chk):
         chk.violation(f'pool-op:workers-left-acquired:{name.split()[0]}:{"raise" if raised else "return"}',
                       f'after {name}: {left} still acquired', dict(kind='pool-op', op=name, left=left))
         pool.release_all()
+    # a worker that is dead (declared so by the registry) when the operation ends must be released like any other
+    courier_utils._worker_registry.unregister('ops-w2')
+    for name, fn in (('call_and_wait with a dead worker', lambda: pool.call_and_wait(lazy_fns.trace(lazylib.inc)(1))),
+                     ('call_and_wait raising with a dead worker', lambda: pool.call_and_wait(lazy_fns.trace(lazylib.boom)(1)))):
+      try:
+        fn()
+        raised = False
+      except Exception:  # pylint: disable=broad-exception-caught
+        raised = True
+      chk.replayed()
+      left = [w.address for w in pool.acquired_workers] + [w.address for w in pool.all_workers if w.is_locked(pool) and w not in pool.acquired_workers]
+      if left:
+        chk.violation(f'pool-op:workers-left-acquired:dead-worker:{"raise" if raised else "return"}',
+                      f'after {name}: {left} still acquired', dict(kind='pool-op', op=name, left=left))
+        for w in pool.all_workers:
+          w.release(pool)
   finally:
     for s in servers:
       try:
